@@ -379,6 +379,7 @@ func TestVerif(t *testing.T) {
 
 	bounceCases(t, r, sc)
 	metaCrashCases(t, r, sc, ms)
+	badUTF8Cases(t, r)
 
 	n := r.N(1200, 16000)
 	for i := 0; i < n; i++ {
